@@ -15,6 +15,7 @@ void vp_op_begin(uint32_t op);
 void vp_op_end(uint32_t op);
 void vp_thread_exit(void);                               // run this thread's thread_local destructors now
 bool vp_alive(const void* p);                            // oracle: p is the base of a live heap block
+uint64_t vp_heap_allocs(void);                            // oracle: number of heap allocations so far
 void vp_nop(void);
 // scenario entry points (any subset): vp_setup, vp_thread1..vp_thread3, vp_final
 }
